@@ -31,6 +31,7 @@ type SpecEnv struct {
 	result []T
 	depth  int
 	fr     *Frame // frame for calling Go functions from specs (may be nil)
+	mapIter func() *mapRange
 	bound  []string // quantified variables in scope (SMT symbols)
 	axDepth int     // nesting of spec-function axiom instantiation
 }
@@ -280,6 +281,12 @@ func (e *SpecEnv) importedPkg(name string) *types.Package {
 func (e *SpecEnv) pkgObject(p *types.Package, name string) T {
 	obj := p.Scope().Lookup(name)
 	if obj == nil {
+		if gd, ok := e.g.cs.Ghosts[p.Path()+"::"+name]; ok {
+			ge := *e
+			ge.pkg = p
+			t := ge.resolveType(gd.Type)
+			return e.g.load(e.cur, e.g.globalLoc("ghost:"+p.Path()+"."+name, t))
+		}
 		specFail("unknown object %s.%s", p.Name(), name)
 	}
 	return e.object(obj)
@@ -370,9 +377,9 @@ func (g *Gen) binop(op token.Token, a, b T) T {
 	case token.EQL, token.NEQ:
 		var r string
 		switch {
-		case a.Sort == "Slice" && isNilT(b):
+		case a.Sort == "Slice" && (isNilT(b) || b.S == "(mk-slice 0 0 0 0)"):
 			r = sEq(slBase(a.S), "0")
-		case b.Sort == "Slice" && isNilT(a):
+		case b.Sort == "Slice" && (isNilT(a) || a.S == "(mk-slice 0 0 0 0)"):
 			r = sEq(slBase(b.S), "0")
 		case a.Sort == "Real" && b.Sort == "Int":
 			r = sEq(a.S, app("to_real", b.S))
@@ -651,6 +658,26 @@ func (e *SpecEnv) isTypeExpr(x ast.Expr) (t types.Type, ok bool) {
 }
 
 func (e *SpecEnv) quant(kind string, x *ast.CallExpr) T {
+	if len(x.Args) == 2 || len(x.Args) == 3 {
+		// forall(k, body) / forall(k, Type, body): unbounded quantification
+		id, ok := x.Args[0].(*ast.Ident)
+		if !ok {
+			specFail("%s: first argument must be an identifier", kind)
+		}
+		var t types.Type = types.Typ[types.Int]
+		if len(x.Args) == 3 {
+			t = e.resolveType(x.Args[1])
+		}
+		sort := e.g.sortOf(t)
+		bvq := quote(fmt.Sprintf("%s!q%d", id.Name, e.g.nextQ()))
+		inner := e.with(id.Name, mk(bvq, sort, t))
+		inner.bound = append(append([]string{}, e.bound...), bvq)
+		body := inner.eval(x.Args[len(x.Args)-1])
+		if kind == "forall" {
+			return boolT(sForallS(bvq, sort, body.S))
+		}
+		return boolT("(exists ((" + bvq + " " + sort + ")) " + body.S + ")")
+	}
 	if len(x.Args) != 4 {
 		specFail("%s(var, lo, hi, body)", kind)
 	}
@@ -748,6 +775,25 @@ func (e *SpecEnv) call(x *ast.CallExpr) T {
 					specFail("iter(): the loop has no range index")
 				}
 				return v
+			case "isint":
+				v := e.eval(x.Args[0])
+				if v.Sort != "Real" {
+					return tTrue
+				}
+				return boolT(app("is_int", v.S))
+			case "visited":
+				// visited(k): key k was already produced by the enclosing range-over-map loop
+				if e.mapIter == nil {
+					specFail("visited() outside a range-over-map loop invariant")
+				}
+				mr := e.mapIter()
+				if mr == nil {
+					specFail("visited(): no map iteration found for this loop")
+				}
+				k := e.eval(x.Args[0])
+				mt := mr.m.GT.Underlying().(*types.Map)
+				hsort := fmt.Sprintf("(Array %s Bool)", g.sortOf(mt.Key()))
+				return boolT(sel(sel(g.arr(e.cur, "IterSeen:"+typeKey(mt.Key()), hsort), mr.it), k.S))
 			case "dyntype":
 				v := e.eval(x.Args[0])
 				t := e.resolveType(x.Args[1])
@@ -767,6 +813,15 @@ func (e *SpecEnv) call(x *ast.CallExpr) T {
 			if e.pkg != nil {
 				if fo, ok := e.pkg.Scope().Lookup(id.Name).(*types.Func); ok {
 					return e.callGoFunc(fo, nil, x.Args)
+				}
+				// dot-imported packages
+				for _, ip := range e.pkg.Imports() {
+					if !strings.HasPrefix(ip.Path(), strings.TrimSuffix(modulePath, "/")) {
+						continue
+					}
+					if fo, ok := ip.Scope().Lookup(id.Name).(*types.Func); ok && fo.Exported() {
+						return e.callGoFunc(fo, nil, x.Args)
+					}
 				}
 			}
 			specFail("unknown function %s", id.Name)
